@@ -41,7 +41,7 @@ theorem startEnv_trapOK (c : Case) : TrapOK (initOf c) (startEnv c) := by
   have hinit := initOf_ne_catch c
   have hI := fun st k d h => Trap.inv_setInternal (initOf c) hinit st k d h
   have h0 : Trap.Inv (initOf c) (Trap.State.init (initOf c)) := Trap.inv_init_state _ hinit
-  obtain ⟨pro, kinds, mid, child, during, tty, internal, ignored, quiet⟩ := c
+  obtain ⟨pro, kinds, mid, child, during, tty, internal, ignored, quiet, first⟩ := c
   cases ignored with
   | none =>
     cases internal with
